@@ -235,7 +235,7 @@ pub struct T1Harness<'a> {
 
 pub fn obs_hash(t: &T1) -> u64 {
     let log = t.log.snapshot();
-    let mut h = fnv64(format!("{:?}", log.iter().filter(|r| !matches!(r.ev, Ev::IsEos(..) | Ev::Capacity(_))).collect::<Vec<_>>()).as_bytes());
+    let mut h = fnv64(format!("{:?}", log.iter().filter(|r| !matches!(r.ev, Ev::IsEos(..) | Ev::Capacity(_))).map(|r| (r.side, r.k, &r.dir, r.submitted, &r.ev)).collect::<Vec<_>>()).as_bytes());
     for f in &t.mon.frames {
         h = h.wrapping_mul(0x100000001b3) ^ fnv64(&f.raw.encode()) ^ (f.sender.idx() as u64);
     }
@@ -560,6 +560,7 @@ pub fn replay(v: &Value, scs: &[Scenario], prop: &'static str, judge: fn(&T1Harn
         println!("  {:>6} #{} {:?} {} {}", r.side.name(), if r.k == usize::MAX { "-".to_string() } else { r.k.to_string() }, r.dir, if r.submitted { "submit" } else { "recv  " }, ev);
     }
     println!("--- tasks still pending: {:?}", t.exec.pending_tasks().iter().map(|&i| t.exec.tasks[i].name.clone()).collect::<Vec<_>>());
+    let first_hash = obs_hash(&t);
     let vs = judge(&h, &mut t, end);
     let s = t.sh.lock().unwrap();
     if let Some(d) = &s.chooser.diverged {
@@ -575,7 +576,7 @@ pub fn replay(v: &Value, scs: &[Scenario], prop: &'static str, judge: fn(&T1Harn
     }
     // second run must observe the same
     let (t2, _) = h.execute(&choices);
-    if obs_hash(&t2) != obs_hash(&t) {
+    if obs_hash(&t2) != first_hash {
         println!("NONDETERMINISM: second replay observed something else");
     }
     !vs.is_empty() || np > 0
